@@ -355,3 +355,92 @@ Definition net_hyps_b (g : graph) (si : band) (d : list line) : bool :=
   | Ok (f_min, f_max) => forallb (fun l => common_ok_b g si f_min f_max (line_path l)) d
   | Err _ => false
   end.
+
+(* ---------------------------------------------------------------- find_common_range with the 'spacing' key *)
+(* remove_duplicates compares whole dictionaries: a band carries its spacing entry
+   (None = key absent, Some None = None, Some (Some s) = a value) *)
+Definition sband := (Q * Q * option (option Q))%type.
+Definition sb_band (b : sband) : band := (fst (fst b), snd (fst b)).
+Definition osp_eqb (a b : option (option Q)) : bool :=
+  match a, b with
+  | None, None => true
+  | Some None, Some None => true
+  | Some (Some x), Some (Some y) => Qeq_bool x y
+  | _, _ => false
+  end.
+Definition sband_eqb (a b : sband) : bool := band_eqb (sb_band a) (sb_band b) && osp_eqb (snd a) (snd b).
+Fixpoint sbands_eqb (l1 l2 : list sband) : bool :=
+  match l1, l2 with
+  | [], [] => true
+  | a :: t1, b :: t2 => sband_eqb a b && sbands_eqb t1 t2
+  | _, _ => false
+  end.
+Definition sort_sbands (l : list sband) : list sband :=
+  sort_by (fun a b => Qle_bool (fst (sb_band a)) (fst (sb_band b))) l.
+Fixpoint dedupe_sp (l seen : list (list sband)) : list (list sband) :=
+  match l with
+  | [] => []
+  | a :: t => if existsb (sbands_eqb a) seen then dedupe_sp t seen else a :: dedupe_sp t (seen ++ [a])
+  end.
+(* the (f_min, f_max) of find_common_range when the input dictionaries carry spacing entries *)
+Definition find_common_range_sp (amps : list (list sband)) (si : band) : list band :=
+  match dedupe_sp (map sort_sbands amps) [] with
+  | [] => [si]
+  | c0 :: t => sort_bands (fold_left intersect (map (map sb_band) (c0 :: t)) (map sb_band c0))
+  end.
+
+(* ---------------------------------------------------------------- local graph conditions *)
+Definition is_line_uid (g : graph) (u : Z) : bool :=
+  match lookup g u with Some n => is_line_node n | None => false end.
+(* all edges that end in a line element (fibre, amplifier, fused ...), as their targets *)
+Definition line_targets (g : graph) : list Z := flat_map (fun n => filter (is_line_uid g) (succs n)) g.
+Definition roadm_starts (g : graph) : list (Z * Z) := starts_of g (filter (fun n => kind_eqb (kind n) KRoadm) g).
+Definition walk_of (g : graph) (st : Z * Z) : res (list Z) := walk g (S (length g * length g)) (fst st) (snd st).
+Definition line_of_walk (st : Z * Z) (p : list Z) : line := mkL (fst st) (removelast p) (List.last p 0).
+(* the line decomposition read off the walks *)
+Definition lines_of (g : graph) : res (list line) :=
+  mapM (fun st => let* p := walk_of g st in Ok (line_of_walk st p)) (roadm_starts g).
+(* a transceiver only feeds ROADMs (none sits on a line); a line element has exactly one successor, a line element
+   or a ROADM *)
+Definition node_local_b (g : graph) (n : node) : bool :=
+  match kind n with
+  | KRoadm => true
+  | KTrx => match succs n with [] => false | _ => forallb (is_kind g KRoadm) (succs n) end
+  | _ => match succs n with [s] => is_kind g KRoadm s || is_line_uid g s | _ => false end
+  end.
+Definition local_wf_b (g : graph) : bool :=
+  nodup_b (map uid g)
+  && forallb (node_local_b g) g
+  && nodup_b (line_targets g)                                   (* at most one edge into every line element *)
+  && forallb (fun st => match walk_of g st with Ok _ => true | Err _ => false end) (roadm_starts g)
+                                                                (* every walk from a ROADM reaches a ROADM *)
+  && forallb (fun n => negb (is_line_node n) ||
+                       existsb (fun st => match walk_of g st with
+                                          | Ok p => existsb (Z.eqb (uid n)) (removelast p)
+                                          | Err _ => false end) (roadm_starts g)) g.
+                                                                (* every line element is met from a ROADM *)
+
+(* every amplifier's own bands pairwise non-overlapping *)
+Definition dj_b (a b : band) : bool := Qle_bool (snd a) (fst b) || Qle_bool (snd b) (fst a).
+Fixpoint pdisj_b (l : list band) : bool :=
+  match l with [] => true | a :: t => forallb (dj_b a) t && pdisj_b t end.
+Definition amps_ok_b (g : graph) : bool :=
+  forallb (fun n => negb (kind_eqb (kind n) KAmp) || pdisj_b (abands n)) g.
+Definition oms_amp_bands (g : graph) (els : list Z) : list (list band) :=
+  flat_map (fun u => match lookup g u with
+                     | Some n => if kind_eqb (kind n) KAmp then [abands n] else []
+                     | None => [] end) els.
+(* hypotheses of build_oms_list_local: local graph conditions, amplifier bands, and the two situations the open
+   findings are about excluded (an OMS whose amplifiers share no band; an amplifier-less OMS whose SI band leaves
+   the range of the amplifiers) *)
+Definition net_local_hyps_b (g : graph) (si : band) : bool :=
+  local_wf_b g && amps_ok_b g &&
+  match lines_of g, find_network_freq_range g with
+  | Ok d, Ok (f_min, f_max) =>
+      negb (Nat.eqb (length d) 0) &&
+      forallb (fun l => match elements_common_range g (line_path l) si with [] => false | _ => true end &&
+                        match oms_amp_bands g (line_path l) with
+                        | [] => Qle_bool f_min (fst si) && Qle_bool (fst si) (snd si) && Qle_bool (snd si) f_max
+                        | _ => true end) d
+  | _, _ => false
+  end.
